@@ -584,3 +584,18 @@ def not_after(ctx: Ctx, f: Func, a: ast.AST, b: ast.AST) -> bool:
 def cond_texts_resolved(ctx: Ctx, f: Func, at: ast.AST, conds: List[Tuple[ast.AST, bool]], keep: Iterable[str] = ()) -> Set[str]:
     """cond_texts with single-definition locals inside the atoms replaced by what they stand for."""
     return cond_texts([(resolve_expr(ctx, f, at, e, keep=keep), pol) for e, pol in conds])
+
+
+def stands_for_params(ctx: Ctx, f: Func, name: str, depth: int = 2) -> Set[str]:
+    """Parameters of f (other than self) that the local `name` may hold unchanged: `name` itself if it is a parameter,
+    else the parameters among the right-hand sides of its plain assignments (`pos = before`, one branch of several)."""
+    params = set(f.top.param_names()) - {f.self_name}
+    if name in params:
+        return {name}
+    out: Set[str] = set()
+    if depth <= 0:
+        return out
+    for b in ctx.env.scope(f).bindings.get(name, []):
+        if b.kind == "val" and isinstance(b.expr, ast.Name):
+            out |= stands_for_params(ctx, f, b.expr.id, depth - 1)
+    return out
